@@ -202,6 +202,10 @@ func genLockstep(fam lsFamily) func(r *core.Rand, env *core.Env, run int) *Scena
 		for ci := 0; ci < nc; ci++ {
 			g := newLsGen(r, env, fmt.Sprintf("c%d:", ci), 1, aim)
 			g.timeOK = fam.useTime && ci == 0
+			if g.timeOK {
+				// run in the middle of the wall-clock second (the generator's clock starts there)
+				g.steps = append(g.steps, Step{Kind: "sleep", Sleep: 500 * time.Millisecond})
+			}
 			g.keys = keyPool(r, g.prefix, 1+r.Intn(4), fam.plainKeys || r.Bool(0.5))
 			if fam.seedOthers && r.Bool(0.5) {
 				g.seedOtherTypes()
